@@ -181,6 +181,7 @@ func runC19(c *Ctx) {
 	c19JSON(c, p)
 	c19OptionNormalisation(c, c.P)
 	c19OptionsAgree(c, c.P)
+	c19FormatterEntryReset(c, c.P)
 	c.R.Rule("walk-skipdir", "in the CLI and the linter's directory walk, filepath.SkipDir / fs.SkipDir is returned only where the entry's IsDir() holds")
 	nsd := c19WalkSkipDir(c, c.P, []string{"cmd/gosqlx/cmd", "cmd/gosqlx/internal/actioncmd", "cmd/gosqlx/internal/validate", "cmd/gosqlx/internal/output", "cmd/gosqlx/internal/config", "pkg/linter"}, nil)
 	if nsd == 0 {
